@@ -10,7 +10,7 @@ and the component docstrings, not from the node code):
 Observation: the leaf `_process_logic` / `_get_data` functions of the library classes are wrapped (functools.wraps) to log every
 invocation with the data and parameters they saw; the log, the returned data and the returned context are compared with the
 reference.  All pipelines run in ONE process, so state kept between runs (caches keyed by class identity) is exercised.
-Bound: every sequence of length <= 2 over the pool x 5 initial contexts (one with falsy values) x 3 initial payloads, sampled sequences of length 3..6
+Bound: every sequence of length <= 2 over the pool x 6 initial contexts (one with falsy values) x 3 initial payloads, sampled sequences of length 3..6
 (quick 1500, thorough 12000)."""
 import functools, itertools, json, random, sys, logging
 logging.disable(logging.CRITICAL)
@@ -79,6 +79,21 @@ class Failing(tu.FloatOperation):
         raise ArithmeticError("processor error")
 
 
+class Affine(tu.FloatOperation):
+    """gain * x + offset; the offset has a default"""
+
+    def _process_logic(self, data, gain: float, offset: float = 100.0):
+        LOG.append(["affine", [data.data], {"gain": gain, "offset": offset}])
+        return F(gain * data.data + offset)
+
+
+def _affine_sweep(extra=None):
+    d = {"processor": Affine, "derive": {"parameter_sweep": {"parameters": {"gain": "g"}, "variables": {"g": {"values": [1.0, 2.0]}}, "collection": "FloatDataCollection"}}}
+    if extra:
+        d["parameters"] = dict(extra)
+    return d
+
+
 NO = object()
 # label -> (node config, kind, input kind, [(parameter, default)], log name)
 POOL = {
@@ -111,6 +126,9 @@ POOL = {
     "sum": ({"processor": tu.FloatCollectionSumOperation}, "sum", "c", [], "sum"),
     "sweep-mul": ({"processor": "FloatMultiplyOperation", "derive": {"parameter_sweep": {"parameters": {"factor": "t"}, "variables": {"t": {"values": [1.0, 2.0, 4.0]}},
                                                                                         "collection": "FloatDataCollection"}}}, "sweep-op", "f", [], "mul"),
+    # a sweep over a processor with a second, defaulted parameter that no expression computes: it resolves like any parameter
+    "sweep-affine": (_affine_sweep(), "sweep-affine", "f", [("offset", 100.0)], "affine"),
+    "sweep-affine(offset=1)": (_affine_sweep({"offset": 1.0}), "sweep-affine", "f", [("offset", 100.0)], "affine"),
     "sink": ({"processor": tu.FloatDataSink}, "sink", "f", [], "sink"),
     "write": ({"processor": WriteDeclared}, "write", "f", [], "write"),
     "write-undeclared": ({"processor": WriteUndeclared}, "write-undeclared", "f", [], "write-undeclared"),
@@ -199,6 +217,13 @@ def reference(labels, data, ctx):
                     out.append(data * t)
                 data = out
                 ctx["t_values"] = [1.0, 2.0, 4.0]
+            elif kind == "sweep-affine":
+                out = []
+                for g in (1.0, 2.0):
+                    log.append([lname, [data], {"gain": g, "offset": resolved["offset"]}])
+                    out.append(g * data + resolved["offset"])
+                data = out
+                ctx["g_values"] = [1.0, 2.0]
             elif kind == "sink":
                 log.append([lname, [data], {}])
             elif kind == "write":
@@ -238,7 +263,7 @@ def fail(cls, **kw):
         failures.append(dict({"class": cls}, **kw))
 
 
-CONTEXTS = [{}, {"factor": 3.0}, {"factor": 0.5, "addend": 2.0, "k1": 7.0}, {"value": 9.0, "k1": 1.5}, {"factor": 0.0, "k1": 0, "addend": 0.0}]
+CONTEXTS = [{}, {"factor": 3.0}, {"factor": 0.5, "addend": 2.0, "k1": 7.0}, {"value": 9.0, "k1": 1.5}, {"factor": 0.0, "k1": 0, "addend": 0.0}, {"offset": 5.0, "factor": 2.0}]
 DATA = [3.0, None, [1.0, 2.0, 0.0]]
 
 
